@@ -417,6 +417,20 @@ def make_scripted_policy_factory(scripts, style):
         for ns, k, v in md:
           sg.metadata.abs_ns(vz.Namespace.decode(ns))[k] = v
         sugg.append(sg)
+      if style == 'view':
+        # an algorithm that works inside its own namespace and hands back that VIEW of its store: what a delta
+        # carries is its absolute content (every namespace of the store the view belongs to), wherever the view
+        # happens to be positioned
+        store = vz.Metadata()
+        for ns, k, v in on_study:
+          store.abs_ns(vz.Namespace.decode(ns))[k] = v
+        per_trial = {}
+        for tid, ns, k, v in on_trials:
+          per_trial.setdefault(tid, vz.Metadata()).abs_ns(vz.Namespace.decode(ns))[k] = v
+        delta = vz.MetadataDelta(on_study=store.ns('algo'))
+        for tid, md in per_trial.items():
+          delta.on_trials[tid] = md.ns('algo').ns('sub')
+        return pythia.SuggestDecision(sugg, metadata=delta)
       if style == 'explicit':
         decision = pythia.SuggestDecision(sugg, metadata=vz.MetadataDelta())
       else:
@@ -498,7 +512,7 @@ def policy_stage(c):
   each study read back must be the last-writer-wins result of ITS OWN history."""
   n = 24 if c.tier == 'quick' else 200
   for i in range(n):
-    style = 'default' if i % 2 == 0 else 'explicit'
+    style = ('default', 'explicit', 'view')[i % 3]
     be = 'ram' if i % 3 else 'sqlmem'
     ops_by_study = {'sa': gen_history(c.rng, c.rng.randrange(4, 12)), 'sb': gen_history(c.rng, c.rng.randrange(3, 10))}
     # make sure algorithm rounds occur in both
@@ -618,7 +632,7 @@ def inram_stage(c):
     c.prop_fail(KEY_INRAM_ATOMIC, 'InRamPolicySupporter: a metadata delta naming missing trial 99 raised %s but left study metadata %s (must report an error and change nothing)' % (o['sa'], st['sa']['study']),
                 {'ops': w, 'outs': o, 'store': st})
   for i in range(n):
-    style = 'default' if i % 2 == 0 else 'explicit'
+    style = ('default', 'explicit', 'view')[i % 3]
     ops_by_study = {'sa': gen_inram_history(c.rng, c.rng.randrange(3, 9)), 'sb': gen_inram_history(c.rng, c.rng.randrange(3, 9))}
     if not atomic:
       # keep to deltas that name existing trials: the non-atomic failure is the finding above
